@@ -247,6 +247,34 @@ int main(int argc, char** argv)
     std::vector<uint32_t> last_fail;
     std::string last_sig, last_msg, last_decoded;
     uint64_t ran = 0;
+    // The first case of a process is special for anything that is initialised lazily (a function-local static set from the
+    // first call's arguments, a table filled on first use): rapidcheck always starts with the empty tape, so without this
+    // every process would make the same degenerate first call.  One full-size case whose words are a function of the shard
+    // seed runs first; it is an ordinary case (same property function, same oracle) and replays alone in a fresh process.
+    if (opt("no_first_case") != "1")
+    {
+        std::vector<uint32_t> first(size_t(std::max(64.0, 100.0 * double(scale))));
+        uint64_t x = (g_seed + 1) * 0x9E3779B97F4A7C15ULL;
+        for (auto& w : first)
+        {
+            x ^= x >> 12, x ^= x << 25, x ^= x >> 27;
+            w = uint32_t((x * 0x2545F4914F6CDD1DULL) >> 32);
+        }
+        g_current_tape = first;
+        Tape t(first);
+        rep.decoded.clear();
+        bool r = fn(t, rep);
+        ++ran;
+        rep.cls("driver:full_size_first_case");
+        if (!r)
+        {
+            double wall0 = std::chrono::duration<double>(std::chrono::steady_clock::now() - t0).count();
+            write_replay(g_replay_out, first, rep.failure_sig, rep.failure, rep.decoded);
+            write_report(out, rep, false, ran, wall0);
+            write_fps(fpout, rep);
+            return 1;
+        }
+    }
     auto tapeGen = rc::gen::scale(scale, rc::gen::container<std::vector<uint32_t>>(rc::gen::arbitrary<uint32_t>()));
     std::chrono::steady_clock::time_point shrink_deadline;
     const double shrink_seconds = double(opt_int("shrink_seconds", 25));
